@@ -1778,3 +1778,175 @@ Proof.
   exists false, [], None, wit_page, [mkEx M_GET None true wit_page 5 None false None []; mkEx M_GET None true wit_page 0 None false None []].
   vm_compute. split; reflexivity.
 Qed.
+
+(** ---------------------------------------------------------------------------------------------
+    the end of an HTTP/1 connection: a body that only that end delimits
+    --------------------------------------------------------------------------------------------- *)
+Lemma receive_end_orderly m w : receive_end m EOrderly w = w.
+Proof. destruct w; reflexivity. Qed.
+
+Lemma h1_conn_end_shutdown secure : h1_conn_end secure true = EOrderly.
+Proof. unfold h1_conn_end. destruct secure; reflexivity. Qed.
+
+Lemma h1_conn_end_plain shutdown : h1_conn_end false shutdown = EOrderly.
+Proof. reflexivity. Qed.
+
+Lemma oreceive_end_orderly m o : oreceive_end m EOrderly o = o.
+Proof. destruct o as [w| |]; cbn [oreceive_end]; [rewrite receive_end_orderly|..]; reflexivity. Qed.
+
+Lemma send_ex_end_shutdown checked ops alt e416 p secure e :
+  send_ex_end true checked ops alt e416 p secure e = send_ex checked ops alt e416 p secure e.
+Proof.
+  unfold send_ex_end. destruct p; [|reflexivity]. rewrite h1_conn_end_shutdown. apply oreceive_end_orderly.
+Qed.
+
+Lemma conn_loop_ext (S Q : Type) (ans ans' : proto -> bool -> S -> N -> Q -> S * outcome wreply) qm ql qe wants :
+  (forall p sec s n q, ans p sec s n q = ans' p sec s n q) ->
+  forall p drain secure qs s cs now dt,
+    conn_loop S Q ans qm ql qe wants p drain secure s cs now dt qs = conn_loop S Q ans' qm ql qe wants p drain secure s cs now dt qs.
+Proof.
+  intros Hext p drain secure qs. induction qs as [|q qs IH]; intros s cs now dt; cbn [conn_loop]; [reflexivity|].
+  destruct cs as [|n|].
+  - rewrite Hext. destruct (ans' p secure s now q) as [s' w]. rewrite IH. reflexivity.
+  - rewrite IH. reflexivity.
+  - rewrite IH. reflexivity.
+Qed.
+
+(** with [shutdown] — the code as it is — the end of the connection changes nothing: the history model with the connection
+    end IS [pair_hist], and every theorem about [pair_hist] is one about the run with the end of the connection in it *)
+Lemma pair_hist_end_shutdown checked ops alt e416 p drain secure exs :
+  pair_hist_end true checked ops alt e416 p drain secure exs = pair_hist checked ops alt e416 p drain secure exs.
+Proof.
+  unfold pair_hist_end, pair_hist. apply conn_loop_ext. intros p' sec s n q. unfold ex_ans_end, ex_ans.
+  rewrite send_ex_end_shutdown. reflexivity.
+Qed.
+
+(** on plain TCP there is no close_notify to miss: FIN is the orderly end, whichever way the loop is left *)
+Lemma pair_hist_end_plain shutdown checked ops alt e416 drain exs :
+  pair_hist_end shutdown checked ops alt e416 H1 drain false exs = pair_hist checked ops alt e416 H1 drain false exs.
+Proof.
+  unfold pair_hist_end, pair_hist.
+  assert (G : forall cs s now dt,
+    conn_loop unit exch (ex_ans_end shutdown checked ops alt e416) ex_method ex_blen (fun _ => 0) (fun _ e => ex_want e) H1 drain false s cs now dt exs =
+    conn_loop unit exch (ex_ans checked ops alt e416) ex_method ex_blen (fun _ => 0) (fun _ e => ex_want e) H1 drain false s cs now dt exs).
+  { induction exs as [|e exs IH]; intros cs s now dt; cbn [conn_loop]; [reflexivity|].
+    destruct cs as [|n|]; try (rewrite IH; reflexivity).
+    unfold ex_ans_end at 1, ex_ans at 1, send_ex_end. rewrite h1_conn_end_plain, oreceive_end_orderly.
+    rewrite IH. reflexivity. }
+  apply G.
+Qed.
+
+Lemma close_delimited_iff_close_notify_lemma (m : N) (r : resp) (secure shutdown : bool) :
+  (end_delimited m r = true ->
+     (receive_end m (h1_conn_end secure shutdown) (WClosed r) = WClosed r <-> (secure = false \/ shutdown = true)) /\
+     (receive_end m (h1_conn_end secure shutdown) (WClosed r) = WBroken <-> (secure = true /\ shutdown = false))) /\
+  (end_delimited m r = false -> receive_end m (h1_conn_end secure shutdown) (WClosed r) = WClosed r) /\
+  (forall (ce : conn_end) (w : wreply), (forall x, w <> WClosed x) -> receive_end m ce w = w).
+Proof.
+  split; [|split].
+  - intros Hd. unfold h1_conn_end. destruct secure, shutdown; cbn [andb negb receive_end]; rewrite ?Hd;
+      (split; split; intros H; try reflexivity; try discriminate; try tauto);
+      try (destruct H as [H|H]; discriminate); try (destruct H as [H1 H2]; discriminate).
+  - intros Hd. unfold h1_conn_end. destruct (secure && negb shutdown); cbn [receive_end]; rewrite ?Hd; reflexivity.
+  - intros ce w Hw. destruct w as [x|x| |]; try reflexivity. exfalso. apply (Hw x). reflexivity.
+Qed.
+
+Lemma stream_parity_with_end_lemma (checked : bool) (error_page : N -> resp) (vn : list bytes) (pkg : N -> headers -> headers)
+    (secure1 : bool) (alt : option bytes) (m : N) (sd : outcome (option (N * N))) (r : resp) (f : option (list bytes * option N)) :
+  onorm (oreceive_end m (h1_conn_end secure1 true) (send_pipe checked error_page vn pkg false H1 secure1 alt m sd r f)) =
+  onorm (send_pipe checked error_page vn pkg false H1 secure1 alt m sd r f).
+Proof. rewrite h1_conn_end_shutdown, oreceive_end_orderly. reflexivity. Qed.
+
+(** the variant that leaves the request loop by [return] ([shutdown = false]): the streamed answer of unknown length
+    arrives complete on HTTP/2 and on a plain HTTP/1 connection, and cannot be told from a truncated one on HTTP/1 over TLS *)
+Lemma close_without_notify_refuted_lemma : exists checked ops alt e416 exs body,
+  Forall ex_ok exs /\ body <> [] /\
+  pair_hist_end false checked ops alt e416 H1 true true exs = [Some (Ok WBroken)] /\
+  pair_hist_end false checked ops alt e416 H1 true false exs
+    = [Some (Ok (WClosed (mkResp V11 200 [(B "content-type", B "text/plain"); (B "connection", B "close")] body)))] /\
+  pair_hist_end false checked ops alt e416 H2 true true exs = [Some (Ok (WResp (mkResp V2 200 [(B "content-type", B "text/plain")] body)))] /\
+  pair_hist_end true checked ops alt e416 H1 true true exs
+    = [Some (Ok (WClosed (mkResp V11 200 [(B "content-type", B "text/plain"); (B "connection", B "close")] body)))].
+Proof.
+  exists false, [], None, unk_page, [mkEx M_GET None true unk_page 0 None false (Some ([B "first "; B "second"], None)) []], (B "first second").
+  split; [|split; [discriminate|vm_compute; repeat split]].
+  repeat constructor; cbn; try lia; try discriminate; try (intros H; exfalso; apply H; reflexivity).
+Qed.
+
+(** ---------------------------------------------------------------------------------------------
+    the request-head limits of the two front ends
+    --------------------------------------------------------------------------------------------- *)
+Lemma fields_size_32_le_8x4 h : fields_size 32 h <= 8 * fields_size 4 h.
+Proof.
+  induction h as [|kv h IH]; cbn [fields_size]; [lia|]. unfold blen in *. lia.
+Qed.
+
+Lemma fields_count_le h : 4 * N.of_nat (length h) <= fields_size 4 h.
+Proof.
+  induction h as [|kv h IH]; cbn [fields_size length]; [lia|]. unfold blen in *. lia.
+Qed.
+
+Lemma h2_list_le_8_h1_head authority m t h : h2_list_size authority m t h <= 8 * h1_head_len authority m t h.
+Proof.
+  unfold h2_list_size, h1_head_len. pose proof (fields_size_32_le_8x4 h). unfold blen in *. lia.
+Qed.
+
+(** every request head the HTTP/1 front end accepts is accepted by an HTTP/2 front end whose header-list limit is above
+    8 * 16384 (h2's default is 16 MiB), and has at most 4096 fields (h2 gives up beyond 24576) *)
+Lemma head_accepted_by_both_lemma (limit : N) (authority m t : bytes) (h : headers) :
+  8 * H1_MAX_HEAD < limit -> h1_head_ok authority m t h = true ->
+  h2_head_ok limit authority m t h = true /\ N.of_nat (length h) <= 4096.
+Proof.
+  unfold h1_head_ok, h2_head_ok, H1_MAX_HEAD. intros Hl Ha.
+  pose proof (h2_list_le_8_h1_head authority m t h) as H8.
+  pose proof (fields_count_le h) as Hc.
+  assert (Hf : fields_size 4 h <= h1_head_len authority m t h) by (unfold h1_head_len, blen; lia).
+  split; lia.
+Qed.
+
+Lemma default_header_list_limit_suffices : 8 * H1_MAX_HEAD < H2_MAX_HEADER_LIST.
+Proof. unfold H1_MAX_HEAD, H2_MAX_HEADER_LIST. lia. Qed.
+
+(** a header-list limit of 16 KiB on the HTTP/2 side ("the same as the HTTP/1 head limit") is not the same limit: 450 small
+    fields are a head of 4.5 kB on HTTP/1 and a header list of 17 kB on HTTP/2 *)
+Lemma small_header_list_limit_refuted_lemma : exists (authority m t : bytes) (h : headers),
+  h1_head_ok authority m t h = true /\ h1_head_len authority m t h < 5000 /\
+  h2_head_ok H1_MAX_HEAD authority m t h = false /\ h2_head_ok H2_MAX_HEADER_LIST authority m t h = true /\
+  run_head_gen H1_MAX_HEAD (XL [XL []; XL [XB m; XB t; x_headers h; XB []]]) = XL [XL [XN 200]; XL [XN 431]] /\
+  run_head (XL [XL []; XL [XB m; XB t; x_headers h; XB []]]) = XL [XL [XN 200]; XL [XN 200]].
+Proof.
+  exists AUTHORITY, (B "GET"), (B "/s"), (repeat (B "x-123", B "v") 450).
+  vm_compute. repeat split; reflexivity.
+Qed.
+
+(** ---------------------------------------------------------------------------------------------
+    HTTP/2: streams the client has reset
+    --------------------------------------------------------------------------------------------- *)
+Lemma h2_accept_loop_cont qs :
+  h2_accept_loop true qs =
+  (map (fun q => (hq_sid q, (if hq_limited q then 429 else hq_status q), negb (hq_limited q))) (filter (fun q => negb (hq_reset q)) qs), true).
+Proof.
+  induction qs as [|q qs IH]; [reflexivity|]. cbn [h2_accept_loop filter].
+  rewrite Bool.andb_false_r. rewrite IH. destruct (hq_reset q); reflexivity.
+Qed.
+
+Lemma reset_stream_is_its_own_lemma qs : h2_answered true qs = h2_reset_spec qs.
+Proof.
+  unfold h2_answered, h2_reset_spec. rewrite h2_accept_loop_cont. f_equal.
+  generalize (filter (fun q => negb (hq_reset q)) qs). intros l.
+  induction l as [|q l IH]; [reflexivity|].
+  cbn [map filter orb fst snd]. f_equal. exact IH.
+Qed.
+
+(** the code before the repair: three streams whose handlers are running, three the limiter answers, the second of which
+    the client has reset — only the 429 written before it arrives; with the repair all five *)
+Lemma reset_limited_stream_v0_refuted_lemma : exists qs : list h2req,
+  map hq_reset qs = [false; false; false; false; true; false] /\
+  h2_answered false qs = ([(7, 429)], false) /\
+  h2_answered true qs = ([(1, 200); (3, 200); (5, 200); (7, 429); (11, 429)], true) /\
+  h2_reset_spec qs = ([(1, 200); (3, 200); (5, 200); (7, 429); (11, 429)], true).
+Proof.
+  exists [mkH2Q 1 false false 200; mkH2Q 3 false false 200; mkH2Q 5 false false 200;
+          mkH2Q 7 false true 200; mkH2Q 9 true true 200; mkH2Q 11 false true 200].
+  vm_compute. repeat split; reflexivity.
+Qed.
